@@ -131,60 +131,70 @@ def parseVar (rest : Bytes) : M Lex := do
     let tail ← sliceFrom rest p
     return { tok := ← assign t 118 p 0 tail, next := p }
 
-def parseNumber (rest : Bytes) : M Lex := do
-  let n := rest.length
-  let c0 ← at' rest 0
-  let digits : Option Bytes ←
-    (if c0 == 48 && 1 < n then do
-      let c1 ← at' rest 1
-      if c1 == 88 || c1 == 120 then pure (some hexDigits)
-      else if c1 == 66 || c1 == 98 then pure (some binDigits)
-      else pure none
-    else pure none)
-  match digits with
-  | some ds =>
-    let length := spn (mem ds) (← sliceFrom rest 2)
-    if length == 0 then return { tok := ← assign {} 110 0 2 rest, next := 2 }
-    else return { tok := ← assign {} 49 0 (2 + length) rest, next := 2 + length }
-  | none =>
-    let start := 0
-    let pos := spn isDigit rest
-    let (pos, dotOnly) ←
-      (if ← (g (pos < n) <&&> byteIs rest pos 46) then do
-        let pos1 := pos + 1
-        let pos2 := pos1 + spn isDigit (← sliceFrom rest pos1)
-        pure (pos2, pos2 - start == 1)
-      else pure (pos, false))
-    if dotOnly then return { tok := ← assign {} 46 start 1 [46], next := pos }
-    else
-      let (pos, haveE, haveExp) ←
-        (if pos < n then do
+/-- `0x…` / `0b…`: digits after the two-byte prefix, or the bareword `0x` -/
+def numPrefixed (ds : Bytes) (rest : Bytes) : M Lex := do
+  let length := spn (mem ds) (← sliceFrom rest 2)
+  if length == 0 then return { tok := ← assign {} 110 0 2 rest, next := 2 }
+  else return { tok := ← assign {} 49 0 (2 + length) rest, next := 2 + length }
+
+/-- which digit set follows a leading `0`, if any -/
+def numDigitSet (rest : Bytes) (c0 : UInt8) : M (Option Bytes) :=
+  if c0 == 48 && 1 < rest.length then do
+    let c1 ← at' rest 1
+    if c1 == 88 || c1 == 120 then pure (some hexDigits)
+    else if c1 == 66 || c1 == 98 then pure (some binDigits)
+    else pure none
+  else pure none
+
+/-- the optional fraction: new position, and whether only a lone `.` was read -/
+def numDot (rest : Bytes) (pos : Nat) : M (Nat × Bool) := do
+  if ← (g (pos < rest.length) <&&> byteIs rest pos 46) then
+    let pos1 := pos + 1
+    let pos2 := pos1 + spn isDigit (← sliceFrom rest pos1)
+    pure (pos2, pos2 == 1)
+  else pure (pos, false)
+
+/-- the optional exponent: new position, saw `e`, saw exponent digits -/
+def numExp (rest : Bytes) (pos : Nat) : M (Nat × Bool × Bool) := do
+  if pos < rest.length then
+    let c ← at' rest pos
+    if c == 69 || c == 101 then
+      let pos := pos + 1
+      let pos ← (if pos < rest.length then do
           let c ← at' rest pos
-          if c == 69 || c == 101 then
-            let pos := pos + 1
-            let pos ← (if pos < n then do
-                let c ← at' rest pos
-                pure (if c == 43 || c == 45 then pos + 1 else pos)
-              else pure pos)
-            let k := spn isDigit (← sliceFrom rest pos)
-            pure (pos + k, true, k != 0)
-          else pure (pos, false, false)
-        else pure (pos, false, false))
-      let pos ←
-        (if pos < n then do
-          let c ← at' rest pos
-          if c == 100 || c == 68 || c == 102 || c == 70 then
-            if pos + 1 == n then pure (pos + 1)
-            else do
-              let c1 ← at' rest (pos + 1)
-              if isWhite c1 || c1 == 59 then pure (pos + 1)
-              else if c1 == 117 || c1 == 85 then pure (pos + 1)
-              else pure pos
-          else pure pos
+          pure (if c == 43 || c == 45 then pos + 1 else pos)
         else pure pos)
-      let v ← sliceFrom rest start
-      if haveE && !haveExp then return { tok := ← assign {} 110 start (pos - start) v, next := pos }
-      else return { tok := ← assign {} 49 start (pos - start) v, next := pos }
+      let k := spn isDigit (← sliceFrom rest pos)
+      pure (pos + k, true, k != 0)
+    else pure (pos, false, false)
+  else pure (pos, false, false)
+
+/-- Oracle's `d`/`f` suffix -/
+def numSuffix (rest : Bytes) (pos : Nat) : M Nat := do
+  if pos < rest.length then
+    let c ← at' rest pos
+    if c == 100 || c == 68 || c == 102 || c == 70 then
+      if pos + 1 == rest.length then pure (pos + 1)
+      else do
+        let c1 ← at' rest (pos + 1)
+        if isWhite c1 || c1 == 59 then pure (pos + 1)
+        else if c1 == 117 || c1 == 85 then pure (pos + 1)
+        else pure pos
+    else pure pos
+  else pure pos
+
+def parseNumber (rest : Bytes) : M Lex := do
+  let c0 ← at' rest 0
+  match ← numDigitSet rest c0 with
+  | some ds => numPrefixed ds rest
+  | none =>
+    let (pos, dotOnly) ← numDot rest (spn isDigit rest)
+    if dotOnly then return { tok := ← assign {} 46 0 1 [46], next := pos }
+    else
+      let (pos, haveE, haveExp) ← numExp rest pos
+      let pos ← numSuffix rest pos
+      if haveE && !haveExp then return { tok := ← assign {} 110 0 pos rest, next := pos }
+      else return { tok := ← assign {} 49 0 pos rest, next := pos }
 
 def parseUString (rest : Bytes) : M Lex := do
   let n := rest.length
